@@ -1,5 +1,5 @@
 (* one heap graph per line, as hook H7 logs it:  GC n | i:marked:obs:c1,c2 ... | P ... | S ...
-   prints the model's kept set for that graph (seeds = the observable objects), sorted *)
+   prints the model's kept set for that graph (seeds = the observable objects and the objects reached from the roots), sorted *)
 let rec nat_of_int n = if n <= 0 then O else S (nat_of_int (n - 1))
 let rec int_of_nat = function O -> 0 | S n -> 1 + int_of_nat n
 let () =
@@ -19,7 +19,7 @@ let () =
       let nats = Array.init n nat_of_int in
       let children l = let i = int_of_nat l in if i < n then List.map (fun c -> nats.(c)) ch.(i) else [] in
       let nodes = Array.to_list nats in
-      let seeds = List.filter (fun l -> ob.(int_of_nat l)) nodes in
+      let seeds = List.filter (fun l -> ob.(int_of_nat l) || mk.(int_of_nat l)) nodes in
       (match pin children nodes (nat_of_int (n + 1)) seeds with
        | None -> print_endline "none"
        | Some q -> print_endline (String.concat " " ("Q" :: List.map string_of_int (List.sort compare (List.map int_of_nat q)))))
